@@ -387,6 +387,17 @@ func runJob(A []atom, j job, tail *errTail) jobResult {
 		f := finding{Kind: "acked-rows-missing", Detail: "fewer rows with server-generated/format-derived time stored than acknowledged"}
 		if unknown > wantUnknown {
 			f = finding{Kind: "unattributed-rows-stored", Detail: "more rows stored than the accepted requests carry"}
+			// rows of a request that was answered with an error status?
+			var rej []string
+			for p, ai := range j.Seq {
+				if a := &A[ai]; !a.Known && a.NRows > 0 && !(res.Status[p] >= 200 && res.Status[p] < 300) {
+					rej = append(rej, fmt.Sprintf("%s(status=%d)", a.Name, res.Status[p]))
+				}
+			}
+			if len(rej) > 0 && len(unkSubjects) == 0 { // unambiguous only when no accepted request could own those rows
+				sort.Strings(rej)
+				f = finding{Kind: "rejected-request-stored-rows", Subject: strings.Join(rej, "+"), Detail: "rows outside every time window"}
+			}
 		}
 		sort.Strings(unkSubjects)
 		f.Info = fmt.Sprintf("rows outside every request's time window: stored %d, acknowledged %d (by %s)", unknown, wantUnknown, strings.Join(unkSubjects, " + "))
@@ -396,7 +407,8 @@ func runJob(A []atom, j job, tail *errTail) jobResult {
 	if len(res.Recovered) > 0 {
 		sort.Strings(res.Recovered)
 		for i := range fl {
-			if fl[i].Kind == "acked-rows-missing" {
+			switch fl[i].Kind {
+			case "acked-rows-missing", "rejected-request-stored-rows", "unattributed-rows-stored":
 				fl[i].Detail = "after-recovered-panic:" + res.Recovered[0]
 			}
 		}
